@@ -584,6 +584,8 @@ func (r *reloadComp) Generate(rng *rand.Rand, n int, emit func(Case)) {
 	mk("o:5", "ov", "t:5", "|", "R", "a:5:1")
 	mk("o:5", "F", "a:5:1", "ov", "F", "|", "a:5:2", "R", "a:5:3")
 	mk("ov", "o:5", "|", "R", "a:5:1", "x:5", "ov", "o:5", "|", "R", "a:5:2")
+	mk("o:5", "o:1500", "R", "a:5:1", "a:1500:2", "x:5", "x:1500")
+	mk("o:5", "a:5:1", "o:262143", "a:262143:2", "R", "a:5:3", "t:5", "x:5", "a:262143:4")
 	for _, mode := range []string{"fin", "rst", "halfdata", "rst", "fin"} {
 		emit(Case{Ops: []Op{{Name: "reload tcp", Strs: []string{mode}, Ints: []int64{int64(rng.Intn(1000000))}}}, Tag: "listener"})
 	}
@@ -592,6 +594,14 @@ func (r *reloadComp) Generate(rng *rand.Rand, n int, emit func(Case)) {
 		open := map[int]bool{}
 		rec := 1
 		nums := []int{3, 4, 5, 9}
+		// client numbers are socket descriptors: a busy agent sees numbers in the thousands, and whatever is sized or grown by
+		// client number must behave the same on both sides of any boundary (powers of two, the documented maximum)
+		switch i % 5 {
+		case 1:
+			nums = []int{4, 1023, 1024, 5000}
+		case 3:
+			nums = []int{9, 2048, 65536, 262143}
+		}
 		single := func() string {
 			for tries := 0; tries < 10; tries++ {
 				num := nums[rng.Intn(len(nums))]
